@@ -5,16 +5,16 @@ from mc.runner import Stats
 ID = "C07"
 LEVEL = "model_checking"
 RULE = ("BFS over histories of put(fresh)/get/cancel(pending get k) on a real DeferredQueue for every "
-        "(size, backlog) in {None,0,1,2}^2; every transition is executed on the real object and compared "
+        "(size, backlog) in {None,0,1,2,3}^2; every transition is executed on the real object and compared "
         "with a list-based FIFO reference (delivery target, order, QueueOverflow/QueueUnderflow). "
         "non-trivial = distinct canonical states in which a limit was hit, a get was pending or a cancel happened")
-BOUNDS = {"quick": "depth 8", "thorough": "depth 11"}
+BOUNDS = {"quick": "depth 10", "thorough": "depth 13"}
 ASSUMPTIONS = ["canonical state = (config, queued values and pending gets relative to the put/get counters, "
                "Deferred.called flags); completed gets are dropped because neither the queue nor the harness "
                "references them again"]
-MIN = {"quick": {"states": 500, "nontrivial": 100, "outcomes": 5}}
+MIN = {"quick": {"states": 1500, "nontrivial": 1000, "outcomes": 5}}
 
-LIMS = [None, 0, 1, 2]
+LIMS = [None, 0, 1, 2, 3]
 
 
 class St:
@@ -137,7 +137,7 @@ def shards(tier, seed):
 
 def run_shard(shard, tier, seed):
     size, backlog = shard
-    depth = 8 if tier == "quick" else 11
+    depth = 10 if tier == "quick" else 13
     stats = Stats()
 
     def on_state(st, hist):
